@@ -4,13 +4,16 @@ import ALV.Spec.C14
 namespace ALV.Driver.C14
 open ALV ALV.J ALV.C14
 
-/-- Python raises (`ZeroDivisionError`) where IEEE arithmetic yields `inf`/`nan`
-    (`0.0 ** negative`, `x / 0`): a non-finite sample of the `Float` twin is that exception. -/
+/-- Python does not produce `inf`/`nan` where IEEE arithmetic does: `0.0 ** negative` and `x / 0.0`
+    (C: `inf`) raise `ZeroDivisionError`; an invalid operation (C: `nan`) is either `0.0 / 0.0`
+    (`ZeroDivisionError`) or `negative ** non-integer`, which Python 3 turns into a *complex* number.
+    A non-finite sample of the `Float` twin is reported as that class of outcome. -/
 def outcomeToJson : Outcome Float → Json
   | .err k => Json.mkObj [("err", Json.str k)]
   | .ok xs =>
-    if xs.any (fun x => x.isNaN || x.isInf) then Json.mkObj [("err", Json.str "ZeroDivisionError")]
-    else Json.mkObj [("ok", arr floatToJson xs)]
+    match xs.find? (fun x => x.isNaN || x.isInf) with
+    | some x => Json.mkObj [("err", Json.str (if x.isNaN then "NaN" else "ZeroDivisionError"))]
+    | none => Json.mkObj [("ok", arr floatToJson xs)]
 
 def funcToJson (f : Func) : Json := Json.arr [Json.str f.sname, Json.bool f.symm]
 
@@ -45,7 +48,9 @@ def handle (entry : String) (j : Json) : Except String Json := do
         match specList (α := Float) k symm alpha size.toNat with
         | none => Json.null
         | some xs =>
-          if xs.any (fun x => x.isNaN || x.isInf) then Json.null   -- e.g. cos with alpha < 0: outside the property
+          -- an infinite closed form (cos with alpha < 0) is outside the property; a NaN sample (the Float
+          -- evaluation of `sin(≈π) ** alpha` with a slightly negative sine) is sent as "nan" and skipped
+          if xs.any (fun x => x.isInf) then Json.null
           else Json.mkObj [
             ("ok", arr floatToJson xs),
             ("kind", Json.str k.sname), ("symm", Json.bool symm),
